@@ -226,6 +226,9 @@ func init() {
 					if err := writeFiles(dir, map[string]string{op.File: op.Text}); err != nil {
 						return nil, err
 					}
+				case "pub":
+					// what the client holds for the file now (the last publication), nothing is sent
+					pubState(&st, u)
 				case "save":
 					if err := sess.srv.DidSave(ctx, &protocol.DidSaveTextDocumentParams{TextDocument: protocol.TextDocumentIdentifier{URI: u}}); err != nil {
 						st.Err = err.Error()
